@@ -78,8 +78,10 @@ def symLookup (syms : List Sym) (a : Nat) : Option Sym :=
     | some sz => if a < min (s.addr + sz) 4294967295 then some s else none
     | none => some s
 
-/-- `GlobalLibTable` (global_lib_table.rs:9-26). A `LibraryInfo` is represented by its name (the
-harness derives every other field from the name). `used_libs_seen_rvas` is a parallel array to
+/-- `GlobalLibTable` (global_lib_table.rs:9-26). A `LibraryInfo` is represented by its *identity
+string* `dir/…/name`: the harness derives `path = debug_path = "/lib/" ++ identity` and
+`name = debug_name = libDisplayName identity` (the part after the last `/`), so two different libraries can
+carry the same display name (seeded change C03-1 keyed the per-thread resource table by that name). `used_libs_seen_rvas` is a parallel array to
 `used` whose contents are not modelled. -/
 structure GlobalLibs where
   all : List Str := []
@@ -162,6 +164,13 @@ def mappingConvert (maps : List Mapping) (avma : Nat) : Option (Option (Nat × N
 
 /-! ### resource_table.rs -/
 
+def afterLastSlash : List Char → List Char → List Char
+  | acc, [] => acc.reverse
+  | acc, c :: cs => if c = '/' then afterLastSlash [] cs else afterLastSlash (c :: acc) cs
+
+/-- `LibraryInfo::name` of the library with identity string `id` (see `GlobalLibs`) -/
+def libDisplayName (id : Str) : Str := String.ofList (afterLastSlash [] id.toList)
+
 structure ResourceTable where
   libs : List Nat := []
   names : List Nat := []
@@ -177,7 +186,8 @@ def ResourceTable.forLib (rt : ResourceTable) (lib : Nat) (g : GlobalLibs) (st :
     match g.getLibName lib with
     | none => none
     | some name =>
-      let s := st.indexFor name
+      -- resource_table.rs:24: `thread_string_table.index_for_string(&lib.name)`
+      let s := st.indexFor (libDisplayName name)
       some (⟨rt.libs ++ [lib], rt.names ++ [s.2], (lib, rt.libs.length) :: rt.map⟩, s.1, rt.libs.length)
 
 /-! ### func_table.rs -/
